@@ -16,6 +16,7 @@ RULE = ("Hypothesis: well-formed notes on 2 channels over 2-3 pitches (same pitc
         "velocities and the non-note events with ticks equal the source's; source content unchanged in both views. "
         "Non-trivial: a note crosses a boundary or an event sits exactly on a boundary. Distinct by case digest.")
 RULE = RULE + " Rounds e-g: rests written as two WAITs, several control changes per tick, SEQUENCE_CONTROL noise, channel pools, silent notes, far tick shifts, self-concatenated inputs split at their period."
+RULE = RULE + " Round h: the source was split before with other capacities."
 ASSUMPTIONS = ["an event exactly on a boundary may be in either adjacent piece (same absolute tick)"]
 TIERS = {"quick": dict(shards=8, examples=1500, alt_ppqn=[480], alt_shards=2),
          "thorough": dict(fuzz_runs=20000, fuzz_shards=4, size=2, shards=16, examples=25000, alt_ppqn=[480, 7, 1000], alt_shards=2)}
@@ -53,7 +54,10 @@ def _case(draw, size=1):
     sh = gens.far_shift(draw, spec)
     if sh and caps:
         caps[0] += sh          # the content sits far from tick 0; boundaries keep their place relative to it
-    return {"seq": spec, "caps": caps}
+    case = {"seq": spec, "caps": caps}
+    if draw(st.integers(0, 4)) == 0:
+        case["pre_caps"] = draw(st.lists(st.integers(1, 60), min_size=0, max_size=3))
+    return case
 
 
 def strategy(params, shard, nshards):
@@ -81,6 +85,10 @@ def check(case):
                                ("caps-sum>dur", sum(caps) > d0)) if c])
     before = O.canon((ev0, d0))
     try:
+        if case.get("pre_caps") is not None:
+            # the same source was split before with other capacities (it must not have been changed by that)
+            out.label("split-before")
+            seq.split(list(case["pre_caps"]))
         pieces = seq.split(list(caps))
     except Exception as e:
         out.fail("split-raises", f"{type(e).__name__}: {e}")
